@@ -509,6 +509,10 @@ def h_deepcopy(it, v, memo=None):
                 o[k] = rec(y)
             return o
         if isinstance(x, tuple):
+            if hasattr(x, "_names"):  # a named row of the frame model
+                return type(x)([rec(y) for y in x], x._names)
+            if hasattr(x, "_fields"):  # collections.namedtuple
+                return type(x)(*[rec(y) for y in x])
             return tuple(rec(y) for y in x)
         if type(x).__name__ == "_NaN":
             return x
